@@ -371,19 +371,26 @@ func (x *c19) sameTID(a, b *sim.RawClient) {
 // evenPort: EVEN-PORT with reservation, then RESERVATION-TOKEN on another client.
 func (x *c19) evenPort(a, b *sim.RawClient) {
 	for _, c := range []*sim.RawClient{a, b} {
+		if c == nil {
+			continue
+		}
 		if al, st := x.m.Alloc(c); al != nil && st != sim.Dead {
 			return
 		}
 		x.ensureNonce(c)
 	}
 	t := true
+	tr := byte(17)
+	if b == nil {
+		tr = 6
+	}
 	tidA := x.w.NewTID()
 	ba := wire.NewBuilder(wire.MethodAllocate, wire.ClassRequest, tidA)
-	ba.Add(wire.AttrRequestedTransport, []byte{17, 0, 0, 0})
+	ba.Add(wire.AttrRequestedTransport, []byte{tr, 0, 0, 0})
 	ba.Add(wire.AttrEvenPort, []byte{0x80})
 	a.AddAuth(ba)
 	rawA := ba.Bytes()
-	r := x.m.AllocateRaw(a, sim.AllocOpts{EvenPort: &t}, rawA, tidA)
+	r := x.m.AllocateRaw(a, sim.AllocOpts{EvenPort: &t, Transport: tr}, rawA, tidA)
 	if r == nil || r.Class != wire.ClassSuccess {
 		x.rec.FP("evenport/failed/%d", codeOfMsg(r))
 		if r == nil {
@@ -409,9 +416,13 @@ func (x *c19) evenPort(a, b *sim.RawClient) {
 	if relay.Port%2 != 0 {
 		x.rec.Violate("evenport", "odd", "%s: EVEN-PORT allocation got odd relay port %d", a.Name, relay.Port)
 	}
+	x.rec.FP("evenport/transport=%d/port-even=%v", tr, relay.Port%2 == 0)
 	if !ok || len(tok) != 8 {
 		x.rec.Violate("evenport", "no-token", "%s: EVEN-PORT(reserve) success without an 8-byte RESERVATION-TOKEN", a.Name)
 
+		return
+	}
+	if b == nil {
 		return
 	}
 	wait := pick(x.rng, []time.Duration{0, 5 * time.Second, 29 * time.Second, 31 * time.Second})
@@ -438,7 +449,7 @@ func runC19(t *testing.T, rng *rand.Rand, rec *sim.Rec, tier string, caseNo int)
 		// "solo" may hold one allocation: once it has it the user is *at* quota, which must not change
 		// how a retransmission or a second Allocate on its own busy 5-tuple is answered
 		QuotaPerUser: map[string]int{"solo": 1},
-		TCPListeners:   []*net.TCPAddr{{IP: sim.ServerIP4, Port: 3478}},
+		TCPListeners: []*net.TCPAddr{{IP: sim.ServerIP4, Port: 3478}},
 	}
 	var lip net.IP
 	v6 := false
@@ -559,7 +570,12 @@ func runC19(t *testing.T, rng *rand.Rand, rec *sim.Rec, tier string, caseNo int)
 		case 4:
 			x.sameTID(pick(rng, clients), pick(rng, clients))
 		case 5:
-			x.evenPort(clients[0], clients[1])
+			if rng.Intn(4) == 0 {
+				// the same over a TCP control connection, for an RFC 6062 (TCP) relay
+				x.evenPort(tc, nil)
+			} else {
+				x.evenPort(clients[0], clients[1])
+			}
 		case 6:
 			// quota-refused user
 			before := x.stateDigest()
